@@ -284,6 +284,71 @@ let run_popt fields = match fields with
   | [] -> (match parse_arguments [] with Inl _ -> "OK-empty" | Inr _ -> "ERR")
   | _ -> failwith "popt: want 1 field"
 
+(* ---- trees: --delete walk, filtered sender walk ---- *)
+let split_path (s : string) : z list list =
+  (* s is hex of a slash-separated path *)
+  let bytes = bytes_of_hex s in
+  let rec go cur acc = function
+    | [] -> List.rev (List.rev cur :: acc)
+    | b :: r -> if int_of_z b = 47 then go [] (List.rev cur :: acc) r else go (b :: cur) acc r in
+  go [] [] bytes
+
+let cmp_name (a : z list) (b : z list) = compare (List.map int_of_z a) (List.map int_of_z b)
+
+(* insert a path with a type into a tree (children kept in bytewise name order) *)
+let rec tree_insert (t : ftree) (p : z list list) (typ : string) : ftree =
+  match p with
+  | [] -> (match typ with "d" -> (match t with TDir _ -> t | _ -> TDir []) | "f" -> TFile | _ -> TOther)
+  | c :: r ->
+    let cs = (match t with TDir cs -> cs | _ -> []) in
+    let sub = (try List.assoc c (List.map (fun (n, x) -> (n, x)) (List.filter (fun (n, _) -> cmp_name n c = 0) cs)) with Not_found -> TDir []) in
+    let sub' = tree_insert sub r typ in
+    let others = List.filter (fun (n, _) -> cmp_name n c <> 0) cs in
+    TDir (List.sort (fun (a, _) (b, _) -> cmp_name a b) ((c, sub') :: others))
+
+let build_tree (spec : string) : ftree =
+  List.fold_left (fun t item -> match split ':' item with
+    | [p; typ] -> tree_insert t (split_path p) typ
+    | _ -> failwith "bad tree item") (TDir []) (split ',' spec)
+
+let rec tree_paths (prefix : z list list) (t : ftree) : z list list list =
+  match t with
+  | TDir cs -> List.concat_map (fun (n, x) -> let p = prefix @ [n] in p :: tree_paths p x) cs
+  | _ -> []
+
+let render_hex (p : z list list) = hex_of_bytes (render p)
+
+let mk_entry (name : z list) : fentry =
+  { e_name = name; e_len = Z0; e_mtime = Z0; e_mode = Z0; e_uid = Z0; e_gid = Z0; e_rdev = Z0; e_link = []; e_csum = [] }
+
+let run_delete fields = match fields with
+  | [tree; names; rules; ioerr; dry] ->
+    let t = build_tree tree in
+    let names = List.map bytes_of_hex (split ',' names) in
+    let flist = List.map mk_entry names in
+    let rules = List.map (fun r -> parse_rule (bytes_of_hex r)) (split ',' rules) in
+    let listed p = find_in_list (render p) flist in
+    let protected p = (match rules with [] -> false | _ -> excluded rules p) in
+    let has_top = List.exists (fun n -> List.map int_of_z n = [46]) names in
+    let t' = delete_files listed protected has_top (z_of_string ioerr) (dry = "1") t in
+    String.concat "," (List.sort compare (List.map render_hex (tree_paths [] t')))
+  | _ -> failwith "delete: want 5 fields"
+
+let run_filter fields = match fields with
+  | [rules; name] ->
+    let rules = List.map (fun r -> parse_rule (bytes_of_hex r)) (split ',' rules) in
+    if List.exists (fun r -> r.r_wild) rules then "ERR:wild"
+    else if excluded rules (split_path name) then "excluded" else "kept"
+  | _ -> failwith "filter: want 2 fields"
+
+let run_select fields = match fields with
+  | [tree; rules] ->
+    let t = build_tree tree in
+    let rules = List.map (fun r -> parse_rule (bytes_of_hex r)) (split ',' rules) in
+    if List.exists (fun r -> r.r_wild) rules then "ERR:wild"
+    else String.concat "," (List.sort compare (List.map render_hex (select_all rules t)))
+  | _ -> failwith "select: want 2 fields"
+
 (* ---- acl ---- *)
 let acl_rule (t : string) : rule =
   match split ':' t with
@@ -316,6 +381,9 @@ let dispatch comp fields =
   | "recv" -> run_recv fields
   | "mux" -> run_mux fields
   | "popt" -> run_popt fields
+  | "delete" -> run_delete fields
+  | "filter" -> run_filter fields
+  | "select" -> run_select fields
   | "noop" -> "ok"
   | "decision" -> run_decision fields
   | "gensums" -> run_gensums fields
